@@ -61,3 +61,10 @@ Definition law_cleanup_node (al : Z) (ac am : option Z) : bool :=
 Definition law_node_strict (ratio amaxc amaxm : Z) (q : list (Z * Z)) (ac am : option Z) : bool :=
   (oz ac * 100 <=? amaxc * ratio) && (oz ac <=? lmax (map fst q)) &&
   (oz am * 100 <=? amaxm * ratio) && (oz am <=? lmax (map snd q)).
+
+(* after a handled report without failure, against the node's CURRENT
+   allocatable and ratio: at most 10/9 of ratio% (the update threshold's slack) *)
+Definition law_node_current (ratio acpu amem : Z) (ac am : option Z) : bool :=
+  if zin 0 100 ratio && zin 0 rep_max acpu && zin 0 rep_max amem
+  then (9 * oz ac * 100 <=? 10 * (acpu * ratio)) && (9 * oz am * 100 <=? 10 * (amem * ratio))
+  else true.
